@@ -149,6 +149,7 @@ def run(chk):
         chk.undecided("C13.E", "Ecube constants", str(ex))
     eqs = [bd for bd, sty, tr in facts.trait_impl_methods("std::cmp::PartialEq") if sty.get("path") == ECUBE]
     chk.add("C13.E", "Ecube equality is derived over (vars, xnor)", PROVED if eqs and eqs[0]["impl"]["derived"] else UNDECIDED, "")
+    ecube_small(chk, facts, vi, xi)
     # ------------------------------------------------------------------ Soes
     reduction_rules(chk, facts, SOES, "or", "C13.S", "std::ops::BitOr")
 
@@ -190,27 +191,44 @@ def reduction_rules(chk, facts, adt, op, rule, combine_trait, lens=(0, 1, 2, 3))
     # combining operator: concatenation (simplification handled by the caller for Sop)
     forms = [(bd, "<%s as %s>::%s" % (sty["s"], tr["s"], bd["name"])) for bd, sty, tr in facts.trait_impl_methods(combine_trait) if (sty["t"] if sty["k"] == "ref" else sty).get("path") == adt]
     chk.floor(rule + " operator forms", len(forms), 4)
+    cases = [(["a%d" % j for j in range(La)], ["b%d" % j for j in range(Lb)]) for La, Lb in ((0, 0), (1, 0), (0, 2), (2, 1), (2, 2))]
+    cases += [(["s", "s", "a1"], ["s"]), (["s", "a0"], ["b0", "s"]), (["s"], ["s"])]
     for bd, label in forms:
-        for La, Lb in ((0, 0), (1, 0), (0, 2), (2, 1), (2, 2)):
-            key = "%s with %d+%d terms" % (label, La, Lb)
+        for na, nb_ in cases:
+            shared = bool(set(na) & set(nb_)) or len(set(na)) != len(na)
+            key = "%s with %d+%d terms" % (label, len(na), len(nb_)) if not shared else "%s with terms %s and %s" % (label, na, nb_)
             try:
                 it = Interp(facts, max_paths=4096)
                 install_stubs(it, facts, C.elem)
                 stub_simplify(it, facts, C)
                 st = State()
-                na, nb_ = ["a%d" % j for j in range(La)], ["b%d" % j for j in range(Lb)]
                 A, Bv = C.mk(st, 4, na), C.mk(st, 4, nb_)
                 outs = it.call_body(bd, [arg_for(bd["sig"]["inputs"][0], A, st), arg_for(bd["sig"]["inputs"][1], Bv, st)], st, {})
-                o, v, d = single_return(outs)
-                if o is not None:
+                v, d = PROVED, ""
+                nret = 0
+                for o in outs:
+                    s_, w_ = pc_status(o.pc)
+                    if s_ == "unsat":
+                        continue
+                    if o.kind != "return":
+                        v, d = UNDECIDED, "possible panic %s" % o.info.get("msg")
+                        break
+                    nret += 1
                     got = [elem_name(c) for c in C.cubes(it, o.state, o.value)]
                     nv = C.num_vars(o.value)
                     if nv.val != 4:
                         v, d = REFUTED, "result has num_vars %s" % nv.val
-                    elif sorted(got) == sorted(na + nb_):
-                        v, d = PROVED, ""
-                    else:
-                        v, d = REFUTED, "result terms %s, expected all of %s" % (got, na + nb_)
+                        break
+                    if any(g is None or g not in na + nb_ for g in got):
+                        v, d = UNDECIDED, "result contains terms that are not operand terms: %s" % got
+                        break
+                    # under this path's equalities (eq atoms) the result must denote a op b
+                    den = lambda names: __import__("functools").reduce(red, [val_atom(nm, "m") for nm in names], ZERO)
+                    if den(got) != red(den(na), den(nb_)):
+                        v, d = REFUTED, "the result terms %s denote %s, but the operands %s and %s denote %s" % (got, B.describe(den(got)), na, nb_, B.describe(red(den(na), den(nb_))))
+                        break
+                if v == PROVED and nret == 0:
+                    v, d = UNDECIDED, "no returning path"
             except Undecided as ex:
                 v, d = UNDECIDED, ex.cause
             chk.add(rule, key, v, d, where=where_of(bd))
@@ -313,7 +331,78 @@ def reduction_rules(chk, facts, adt, op, rule, combine_trait, lens=(0, 1, 2, 3))
             except Undecided as ex:
                 v, d = UNDECIDED, ex.cause
             chk.add(rule, key, v, d, where=where_of(b))
+    constant_predicates_real(chk, facts, C, op, rule)
     return C
+
+
+def constant_predicates_real(chk, facts, C, op, rule):
+    """is_zero / is_one with the *real* element semantics on a window of two variables: whenever the
+    predicate holds, value() is that constant on all four assignments (all element bit patterns enumerated
+    on the abstract summaries; canonical cubes only)"""
+    import itertools as _it
+    from ..absint import new_cell
+    short = C.adt.split("::")[-1]
+    adt = facts.adts[C.elem]
+    fts = [f["ty"] for f in adt["variants"][0]["fields"]]
+    is_cube = all(t_["k"] == "uint" for t_ in fts)
+    for L in (1, 2):
+        try:
+            elems, atoms = [], []
+            for j in range(L):
+                fs = []
+                for k, t_ in enumerate(fts):
+                    if t_["k"] == "bool":
+                        nm = "e%d.f%d" % (j, k)
+                        fs.append(W(1, bits=[B.atom(nm)]))
+                        atoms.append(nm)
+                    else:
+                        bits = []
+                        for i_ in range(t_["w"]):
+                            if i_ < 2:
+                                nm = "e%d.f%d[%d]" % (j, k, i_)
+                                bits.append(B.atom(nm))
+                                atoms.append(nm)
+                            else:
+                                bits.append(ZERO)
+                        fs.append(W(t_["w"], bits=bits))
+                elems.append(Agg("adt", C.elem, 0, fs))
+
+            def run(mname, extra):
+                it = Interp(facts, max_paths=1024)
+                it.prune = True
+                st = State()
+                cell = new_cell()
+                st.mem[cell] = Arr(elems)
+                f = [None, None]
+                f[C.nv] = wconst(64, 2)
+                f[C.cv] = Ptr(cell, (), (0, L), "vec")
+                b = C.method(mname)
+                return it.call_body(b, [arg_for(b["sig"]["inputs"][0], Agg("adt", C.adt, 0, f), st)] + extra, st, {})
+            preds = {m: run(m, []) for m in ("is_zero", "is_one")}
+            vals = [run("value", [wconst(64, m)]) for m in range(4)]
+            ids = [B.ATOMS.get(a) for a in atoms]
+            verdict = {"is_zero": (PROVED, ""), "is_one": (PROVED, "")}
+            for bitsv in _it.product((0, 1), repeat=len(ids)):
+                asg = dict(zip(ids, bitsv))
+                named = dict(zip(atoms, bitsv))
+                if is_cube and any(named.get("e%d.f0[%d]" % (j, i_)) and named.get("e%d.f1[%d]" % (j, i_)) for j in range(L) for i_ in range(2)):
+                    continue   # contradictory lanes: not a canonical cube
+                vs = [eval_outs(v_, asg) for v_ in vals]
+                for m, want in (("is_zero", 0), ("is_one", 1)):
+                    if verdict[m][0] != PROVED:
+                        continue
+                    r = eval_outs(preds[m], asg)
+                    if r is None or any(x is None for x in vs):
+                        verdict[m] = (UNDECIDED, "summary not evaluable")
+                        continue
+                    if r[0] == "value" and r[1]:
+                        bad = [k for k, x in enumerate(vs) if x[0] != "value" or x[1] != want]
+                        if bad:
+                            verdict[m] = (REFUTED, "%s holds for the %s with element bits %s although value(%d) is %s" % (m, short, {k: v for k, v in named.items() if v}, bad[0], vs[bad[0]][1]))
+            for m in ("is_zero", "is_one"):
+                chk.add(rule, "%s::%s sound with %d real element(s)" % (short, m, L), verdict[m][0], verdict[m][1], where=where_of(C.method(m)))
+        except Undecided as ex:
+            chk.undecided(rule, "%s constant predicates with %d real element(s)" % (short, L), ex.cause)
 
 
 def stub_simplify(it, facts, C):
@@ -326,3 +415,138 @@ def stub_simplify(it, facts, C):
                 interp.simplified = getattr(interp, "simplified", []) + [args[0]]
                 return [Outcome("return", st, pc, Agg("tuple", None, 0, ()))]
             it.opaque_fns[b["key"]] = f
+
+
+def ecube_small(chk, facts, vi, xi):
+    """small-domain rules for Ecube: counts, variable list, from_vars, implicants, enumeration"""
+    from ..stdmodel import drain
+    from ..absint import Frame, new_cell
+    ms = facts.inherent_methods(ECUBE)
+    env = Env(facts)
+    KD = env.kinds["dyn"]
+
+    def win(window, name="e"):
+        f = [None, None]
+        f[vi] = W(32, bits=[B.atom("%s.V[%d]" % (name, i)) if i in window else ZERO for i in range(32)])
+        f[xi] = W(1, bits=[B.atom("%s.X" % name)])
+        return Agg("adt", ECUBE, 0, f)
+    for window in ((0, 1, 2), (0, 16, 31)):
+        atoms = ["e.V[%d]" % i for i in window] + ["e.X"]
+        for mname, spec in (("num_lits", lambda d, w=window: sum(d["e.V[%d]" % i] for i in w)), ("num_gates", lambda d, w=window: max(sum(d["e.V[%d]" % i] for i in w), 1) - 1)):
+            b = ms.get(mname)
+            if b is None:
+                chk.refuted("C13.N", "anchor-missing: Ecube::%s" % mname, "")
+                continue
+            key = "Ecube::%s over variables %s" % (mname, list(window))
+            try:
+                it = Interp(facts)
+                st = State()
+                outs = it.call_body(b, [arg_for(b["sig"]["inputs"][0], win(window), st)], st, {})
+                v, d = decide_by_enumeration(outs, atoms, spec)
+            except Undecided as e:
+                v, d = UNDECIDED, e.cause
+            chk.add("C13.N", key, v, d, where=where_of(b))
+    b = ms.get("vars")
+    if b is not None:
+        window = (0, 5, 31)
+        key = "Ecube::vars over variables %s" % (list(window),)
+        try:
+            it = Interp(facts, max_paths=4096)
+            it.prune = True
+            st = State()
+            cell = new_cell()
+            st.mem[cell] = win(window)
+            outs = it.call_body(b, [Ptr(cell, ())], st, {})
+            o, v, d = single_return(outs)
+            if o is not None:
+                fr = Frame(b, b["mir"], {}, 0)
+                v, d = PROVED, ""
+                n_paths = 0
+                for s1, p1, items in drain(it, fr, o.state, o.pc, o.value):
+                    s_, w_ = pc_status(p1)
+                    if s_ == "unsat":
+                        continue
+                    if s_ != "sat" or any(("e.V[%d]" % i) not in w_ for i in window):
+                        v, d = UNDECIDED, "path not decided"
+                        break
+                    n_paths += 1
+                    got = [x.val if isinstance(x, W) else None for x in items]
+                    want = [i for i in window if w_["e.V[%d]" % i]]
+                    if got != want:
+                        v, d = REFUTED, "vars() yields %s for the variable set %s" % (got, want)
+                        break
+                if v == PROVED and n_paths != 8:
+                    v, d = UNDECIDED, "%d paths" % n_paths
+        except Undecided as e:
+            v, d = UNDECIDED, e.cause
+        chk.add("C13.N", key, v, d, where=where_of(b))
+    b = ms.get("from_vars")
+    if b is not None:
+        for k in (0, 1, 2, 3):
+            key = "Ecube::from_vars with %d symbolic variables" % k
+            try:
+                it = Interp(facts, max_paths=256)
+                st = State()
+                cell = new_cell()
+                st.mem[cell] = Arr([W(64, bits=[B.atom("p%d[0]" % j), B.atom("p%d[1]" % j)] + [ZERO] * 62) for j in range(k)])
+                outs = it.call_body(b, [Ptr(cell, (), (0, k)), W(1, bits=[B.atom("x")])], st, {})
+                atoms = ["p%d[%d]" % (j, bb) for j in range(k) for bb in (0, 1)] + ["x"]
+
+                def spec(dd):
+                    V = 0
+                    for j in range(k):
+                        V |= 1 << (dd["p%d[0]" % j] + 2 * dd["p%d[1]" % j])
+                    return (V, dd["x"])
+                v, d = decide_by_enumeration(outs, atoms, spec, project=lambda g: (g[2][vi], g[2][xi]))
+            except Undecided as e:
+                v, d = UNDECIDED, e.cause
+            chk.add("C13.N", key, v, d, where=where_of(b))
+    b = ms.get("implies_lut")
+    if b is not None:
+        for n in (0, 1, 2):
+            window = tuple(range(n))
+            key = "Ecube::implies_lut n=%d" % n
+            try:
+                it = Interp(facts, max_paths=4096)
+                it.prune = True
+                st = State()
+                lut = KD.place(st, KD.mk(st, n, sym_words(n, "a")))
+                outs = it.call_body(b, [arg_for(b["sig"]["inputs"][0], win(window), st), lut], st, {})
+                atoms = ["e.V[%d]" % i for i in window] + ["e.X"] + ["a[%d]" % p for p in range(1 << n)]
+
+                def spec(dd):
+                    for m in range(1 << n):
+                        par = dd["e.X"]
+                        for i in window:
+                            par ^= dd["e.V[%d]" % i] & ((m >> i) & 1)
+                        if par and not dd["a[%d]" % m]:
+                            return 0
+                    return 1
+                v, d = decide_by_enumeration(outs, atoms, spec)
+            except Undecided as e:
+                v, d = UNDECIDED, e.cause
+            chk.add("C13.N", key, v, d, where=where_of(b))
+    b = ms.get("all")
+    if b is not None:
+        for n in (0, 1, 2, 3):
+            key = "Ecube::all(%d)" % n
+            try:
+                it = Interp(facts, max_paths=64)
+                st = State()
+                outs = it.call_body(b, [wconst(64, n)], st, {})
+                o, v, d = single_return(outs)
+                if o is not None:
+                    fr = Frame(b, b["mir"], {}, 0)
+                    paths = drain(it, fr, o.state, o.pc, o.value)
+                    if len(paths) != 1:
+                        v, d = UNDECIDED, "%d paths" % len(paths)
+                    else:
+                        got = [(c.fields[vi].val, c.fields[xi].val) for c in paths[0][2]]
+                        want = sorted((v_, x_) for v_ in range(1 << n) for x_ in (0, 1))
+                        if sorted(got) == want:
+                            v, d = PROVED, ""
+                        else:
+                            v, d = REFUTED, "Ecube::all(%d) yields %d terms (%d distinct), expected the %d terms" % (n, len(got), len(set(got)), 2 ** (n + 1))
+            except Undecided as e:
+                v, d = UNDECIDED, e.cause
+            chk.add("C13.A", key, v, d, where=where_of(b))
